@@ -222,8 +222,10 @@ def _leg(name, desc, quick, thorough):
 
 
 LEGS = [
-    _leg("t2t", tc.t2t_desc(), 2400, 40000),
-    _leg("t1t", tc.t1t_desc(), 1800, 30000),
+    _leg("t2t", st.one_of(tc.t2t_desc(), tc.t2t_desc(), tc.t2t_desc(),
+                          tc.t2t_room()), 2400, 40000),
+    _leg("t1t", st.one_of(tc.t1t_desc(), tc.t1t_desc(), tc.t1t_desc(),
+                          tc.t1t_room()), 1800, 30000),
     _leg("t3t", tc.t3t_desc("t3t"), 1500, 30000),
     _leg("t3e", tc.t3t_desc("t3e"), 1200, 20000),
     _leg("t4t", tc.t4t_desc(), 1500, 30000),
